@@ -12,6 +12,7 @@ import (
 	"strconv"
 	"strings"
 	"unicode"
+	"unicode/utf16"
 	"unicode/utf8"
 )
 
@@ -59,6 +60,52 @@ func parseField(field string, line int) (any, error) {
 		return boolean, nil
 	}
 	return nil, fmt.Errorf("not a valid JSON - invalid value '%s' on line %d", field, line)
+}
+
+/*
+Decodes the content of a JSON string (without the surrounding quotes).
+Besides the JSON escape sequences, Go escape sequences are still accepted.
+Parameters:
+  - str - raw content of the string.
+
+Returns:
+  - decoded string (empty if an escape sequence is malformed).
+*/
+func unquote(str string) string {
+	var result strings.Builder
+	for len(str) > 0 {
+		if str[0] != '\\' {
+			result.WriteByte(str[0])
+			str = str[1:]
+			continue
+		}
+		if len(str) >= 2 && str[1] == '/' {
+			result.WriteByte('/')
+			str = str[2:]
+			continue
+		}
+		if len(str) >= 12 && str[1] == 'u' && str[6] == '\\' && str[7] == 'u' {
+			high, err1 := strconv.ParseUint(str[2:6], 16, 16)
+			low, err2 := strconv.ParseUint(str[8:12], 16, 16)
+			char := utf16.DecodeRune(rune(high), rune(low))
+			if err1 == nil && err2 == nil && char != utf8.RuneError {
+				result.WriteRune(char)
+				str = str[12:]
+				continue
+			}
+		}
+		char, multibyte, tail, err := strconv.UnquoteChar(str, '"')
+		if err != nil {
+			return ""
+		}
+		if char < utf8.RuneSelf || multibyte {
+			result.WriteRune(char)
+		} else {
+			result.WriteByte(byte(char))
+		}
+		str = tail
+	}
+	return result.String()
 }
 
 /*
@@ -168,7 +215,7 @@ func parseList(json string, line *int) (List, int, error) {
 				continue
 			}
 			if char == '"' {
-				str, _ := strconv.Unquote(fmt.Sprintf(`"%s"`, val.String()))
+				str := unquote(val.String())
 				list.Add(str)
 				val.Reset()
 				state = stateValAfterString
@@ -279,7 +326,7 @@ func parseObject(json string, line *int) (Object, int, error) {
 			if char != ':' {
 				return nil, 0, fmt.Errorf("not a valid JSON - expecting ':', got '%s' on line %d", string(char), *line)
 			}
-			str, _ := strconv.Unquote(fmt.Sprintf(`"%s"`, key.String()))
+			str := unquote(key.String())
 			key.Reset()
 			key.WriteString(str)
 			val.Reset()
@@ -378,7 +425,7 @@ func parseObject(json string, line *int) (Object, int, error) {
 				continue
 			}
 			if char == '"' {
-				str, _ := strconv.Unquote(fmt.Sprintf(`"%s"`, val.String()))
+				str := unquote(val.String())
 				object.Set(key.String(), str)
 				state = stateValAfterString
 				continue
